@@ -303,10 +303,6 @@ class Program:
                         f = self._mk_func(m, sub, cls=c)
                         if f.is_setter:
                             c.setters[f.name] = f
-                            # distinguish the qualname of the setter
-                            del self.funcs[f.qual]
-                            f.qual = f.qual + ".setter"
-                            self.funcs[f.qual] = f
                         else:
                             c.methods[f.name] = f
                     elif isinstance(sub, ast.Assign) and len(sub.targets) == 1 and isinstance(sub.targets[0], ast.Name):
@@ -323,6 +319,8 @@ class Program:
     def _mk_func(self, m, node, cls=None, parent=None):
         f = Func(m, node, cls=cls, parent=parent)
         f.decos = [deco_name(m, d) for d in node.decorator_list]
+        if f.is_setter:
+            f.qual = f.qual + ".setter"  # distinguish the setter from the getter
         self.funcs[f.qual] = f
         for n in walk_shallow_defs(node):
             g = self._mk_func(m, n, cls=None, parent=f)
